@@ -8,6 +8,7 @@ CFG = dict(
         seq("seq_rel", "rel", "c17_memtrace.c", 1000, 50000, mode="seq"),
         seq("thr_tsan", "tsan", "c17_memtrace.c", 96, 4800, mode="thr", wrap=True, params={0: 500}, per_proc_timeout=1800),
         seq("thr_asanh", "asanh", "c17_memtrace.c", 96, 4800, mode="thr", wrap=True, params={0: 800}, per_proc_timeout=1800),
+        seq("thr_tsanrel", "tsanrel", "c17_memtrace.c", 96, 4800, mode="thr", wrap=True, params={0: 500}, per_proc_timeout=1800),  # -O2 under TSan
     ],
     rule=("seq: case = history of 100-3000 operations (acquire, calloc, realloc grow/shrink/same/to 0/from NULL, release, "
           "dump) through the public aws_mem_* API on a tracer at level NONE/BYTES/STACKS (frames per stack 0,1,8,128,500) "
